@@ -326,6 +326,10 @@ func (st *State) schedule() {
 // leakCheck runs once the harness has returned and every goroutine that could
 // still run has run: whatever is parked now is blocked for ever.
 func (st *State) leakCheck() {
+	if len(st.lockOwner) > 0 {
+		st.addOblig("deadlock", "a mutex is still held when the entry point has returned", st.b.False)
+		st.flushObligs()
+	}
 	for _, g := range st.gs[1:] {
 		if g.status == gParkedSend || g.status == gParkedRecv {
 			what := "send"
@@ -823,6 +827,7 @@ func intrContainsRune(st *State, fr *Frame, fn *ssa.Function, a []Value) Value {
 // variables; later writes to them outside a held mutex are logged.
 func (st *State) startGlobalTracking() {
 	st.globalObj = map[*Object]string{}
+	st.globalMaps = map[*MapObj]string{}
 	var visit func(v Value, label string, depth int)
 	seenMap := map[*MapObj]bool{}
 	visitObj := func(o *Object, label string, depth int) {
@@ -852,6 +857,7 @@ func (st *State) startGlobalTracking() {
 		case *MapObj:
 			if x != nil && !seenMap[x] {
 				seenMap[x] = true
+				st.globalMaps[x] = label
 				for i := range x.Keys {
 					visit(x.Vals[i], label, depth)
 				}
